@@ -131,7 +131,7 @@ theorem named_args_cover (d : EnumDef) (v : Variant) (fs : List (Bytes × Option
     (hf : v.fields = .named fs) (lit : Bytes) (args : List Bytes)
     (h : displayArm d v = .ok (.interp lit args)) :
     ∃ used, captureFormatStrings (canonical d v) = .ok used ∧ lit = canonical d v ∧
-      args = (fs.map (·.1)).filter (fun f => used.contains f) := by
+      args = (fs.map (·.1)).filter (fun f => (used.map (fun u => u.dropWhile isAsciiWs)).contains f) := by
   unfold displayArm at h
   rw [preferredName_eq_canonical] at h
   split at h
@@ -222,8 +222,9 @@ theorem tuple_interp_of_wf (d : EnumDef) (v : Variant) (n : Nat) (hf : v.fields 
 theorem named_interp_of_wf (d : EnumDef) (v : Variant) (fs : List (Bytes × Option Bytes)) (hf : v.fields = .named fs)
     (ht : v.transparent = false) (hd : (v.toStr.isNone && v.isDefault) = false)
     (ts : List FmtTok) (hwf : ∀ t ∈ ts, t.wf) (hn : canonical d v = renderToks ts)
-    (hne : tokArgs ts ≠ []) (hid : (tokArgs ts).all isIdentLike = true) :
-    displayArm d v = .ok (.interp (canonical d v) ((fs.map (·.1)).filter (fun f => (tokArgs ts).contains f))) := by
+    (hne : tokArgs ts ≠ []) (hid : ((tokArgs ts).map (fun u => u.dropWhile isAsciiWs)).all isIdentLike = true) :
+    displayArm d v = .ok (.interp (canonical d v)
+      ((fs.map (·.1)).filter (fun f => ((tokArgs ts).map (fun u => u.dropWhile isAsciiWs)).contains f))) := by
   unfold displayArm
   rw [preferredName_eq_canonical]
   have hc : captureFormatStrings (canonical d v) = .ok (tokArgs ts) := by rw [hn]; exact capture_eq_parse ts hwf
